@@ -337,7 +337,7 @@ Lemma enc_says u0 mf e v enc :
   | _, _ => False
   end.
 Proof.
-  intros Hinv He Hd Henc. unfold data_wf in Hd. apply andb_true_iff in Hd as [Hd _].
+  intros Hinv He Hd Henc. unfold data_wf in Hd.
   apply andb_true_iff in Hd as [Hn _]. unfold value_names_ok in Hn.
   cbn [denote]. destruct enc as [t|].
   - destruct Henc as [Hnn [ts [Hr Ht]]]. rewrite (atoms_of_value_atoms v Hnn).
@@ -361,7 +361,7 @@ Lemma data_says u0 m e v :
 Proof.
   intros Hinv He Hd Hq. cbn [wref].
   assert (Hn : value_names_ok v = true).
-  { unfold data_wf in Hd. apply andb_true_iff in Hd as [Hd _]. apply andb_true_iff in Hd as [Hd _]. exact Hd. }
+  { unfold data_wf in Hd. apply andb_true_iff in Hd as [Hd _]. exact Hd. }
   pose proof (encode_data_plain m v (data_plain_of v Hn Hq)) as Hm.
   pose proof (encode_data_ok u0 m v Hinv Hn) as Henc.
   destruct (encode_data m v) as [enc m']. cbn [fst snd] in *. subst m'.
@@ -598,7 +598,7 @@ Proof.
       cbn [forallb] in Hgk, Hdqk. apply andb_true_iff in Hgk as [Hgv Hgr]. apply andb_true_iff in Hdqk as [Hdv Hdr].
       cbn [sguard all_nodes] in Hgv.
       assert (Hvn : value_names_ok v = true).
-      { unfold data_wf in Hgv. apply andb_true_iff in Hgv as [Hgv _]. apply andb_true_iff in Hgv as [Hgv _]. exact Hgv. }
+      { unfold data_wf in Hgv. apply andb_true_iff in Hgv as [Hgv _]. exact Hgv. }
       pose proof (encode_data_ok u0 m2 v I2 Hvn) as Henc.
       destruct (encode_data m2 v) as [enc m2']. destruct Henc as [I3 [E3 R3]].
       destruct (Hfl (enc_is_none enc)) as [Hfa Hfn].
